@@ -747,6 +747,10 @@ def _mutations(I):
     ]
 
 
+ORDER_SENSITIVE = ["base_video_format=99", "picture_coding_mode=2", "profile=2", "level=99", "frame_rate_index=99",
+                   "frame_size=0x5", "cdf=3", "scan=2", "par_index=7", "signal_index=9", "color_spec_index=9", "primaries=9",
+                   "matrix=9", "tf=9", "frame_rate=1/0", "par=0/1", "signal=both_exc0", "clean=huge"]
+
 _MUTS = None
 
 
@@ -775,7 +779,38 @@ def accept_one(I, h, mutation=None, force_major=None):
     return case, verdict, exc, major, minor
 
 
+def synthetic_table(I):
+    """A level table under which custom values ARE allowed but restricted to small sets, so that the
+    order of assert_in_enum / zero tests and assert_level_constraint is observable (no real level
+    allows any custom colour specification, colour difference format, ...).  One column, level 0."""
+    VS = I.ct.ValueSet
+    col = OrderedDict(I.lc.LEVEL_CONSTRAINTS[0])
+    col.update(
+        profile=VS(0, 3), base_video_format=VS((0, 12)), picture_coding_mode=VS(0),
+        frame_width=VS((1, 8192)), frame_height=VS((1, 8192)),
+        color_diff_format_index=VS(0, 1, 2), source_sampling=VS(0, 1),
+        frame_rate_index=VS((0, 6)), frame_rate_numer=VS((1, 1 << 20)), frame_rate_denom=VS((1, 2000)),
+        pixel_aspect_ratio_index=VS((0, 3)), pixel_aspect_ratio_numer=VS((1, 4096)), pixel_aspect_ratio_denom=VS((1, 4096)),
+        clean_width=VS((0, 8192)), clean_height=VS((0, 8192)),
+        custom_signal_range_index=VS(0, 1, 2), luma_excursion=VS((1, 1 << 16)), color_diff_excursion=VS((1, 1 << 16)),
+        color_spec_index=VS(0, 1, 2), color_primaries_index=VS(0, 1), color_matrix_index=VS(0, 1),
+        transfer_function_index=VS(0, 1))
+    return [col]
+
+
 def run_accept(args):
+    if args[1] == "synthetic":
+        I = impl()
+        orig = list(I.lc.LEVEL_CONSTRAINTS)
+        try:
+            I.lc.LEVEL_CONSTRAINTS[:] = synthetic_table(I)
+            return _run_accept(args)
+        finally:
+            I.lc.LEVEL_CONSTRAINTS[:] = orig
+    return _run_accept(args)
+
+
+def _run_accept(args):
     """Worker: one configuration (valid or not) -> observations of the real validator on some headers."""
     spec, kind, seed, nper = args
     import random
@@ -801,6 +836,11 @@ def run_accept(args):
             variants.append((None, rng.choice([1, 2, 3])))
         names = list(mutations(I))
         variants.append((rng.choice(names), None))
+        if kind in ("level", "synthetic") and i == pick[0]:
+            # under a level, every mutation whose failing test sits next to a level check (the ORDER of
+            # assert_in_enum and assert_level_constraint decides the class); the real levels forbid
+            # most custom flags, so only the first few are informative there
+            variants += [(m, None) for m in (ORDER_SENSITIVE if kind == "synthetic" else ORDER_SENSITIVE[:6])]
         if kind == "mutate":
             variants += [(m, None) for m in rng.sample(names, 3)]
             variants.append((rng.choice(names), rng.choice([1, 2, 3])))
@@ -880,9 +920,10 @@ def accept_pass(ctx, I, specs):
                  and all(int(l) in I.lc.LEVEL_SEQUENCE_RESTRICTIONS for l in t.Levels))
     ctx.obligation("corr:accept-enum-literals (color_4_2_2=1, color_4_2_0=2, pictures_are_fields=1, every level has a sequence restriction)",
                    consts_ok, "corr-shard", "checked on the live vc2_data_tables")
-    cover = ctx.coq_eval("accept_cover", ["Model.SeqHeader", "Model.SeqHeaderAccept", "Corr.C15"], "enums_cover T15 E15", defs=accept_defs(I))
-    ctx.obligation("corr:enums_cover holds of the live tables / enumerations (hypothesis of C15_headers_accepted_partial)",
-                   cover is not None and cover.strip() == "true", "corr-shard", "enums_cover T15 E15 = %s" % cover)
+    import concurrent.futures
+    pool_coq = concurrent.futures.ThreadPoolExecutor(max_workers=4)  # the independent coqc runs of this pass overlap
+    f_cover = pool_coq.submit(ctx.coq_eval, "accept_cover", ["Model.SeqHeader", "Model.SeqHeaderAccept", "Corr.C15"],
+                              "enums_cover T15 E15", defs=accept_defs(I))
     rng = ctx.rng
     valid = [s for s, b in specs if not b.startswith("level-")]
     lvl = [s for s, b in specs if b.startswith("level-")]
@@ -893,6 +934,9 @@ def accept_pass(ctx, I, specs):
         jobs.append((s, "level", rng.getrandbits(32), ctx.pick(4, 8)))
     for s in rng.sample(valid, min(len(valid), ctx.pick(50, 500))) + rng.sample(lvl, min(len(lvl), ctx.pick(12, 100))):
         jobs.append((s, "mutate", rng.getrandbits(32), ctx.pick(4, 8)))
+    syn = [s for s in valid if s["pcm"] == 0]
+    for s in rng.sample(syn, min(len(syn), ctx.pick(30, 300))):
+        jobs.append((s, "synthetic", rng.getrandbits(32), ctx.pick(3, 6)))
     inv = gen_invalid_formats(I, ctx)
     for s, what in inv:
         jobs.append((dict(s, what=what), "invalid", rng.getrandbits(32), ctx.pick(3, 6)))
@@ -901,6 +945,7 @@ def accept_pass(ctx, I, specs):
         results = pool.map(run_accept, jobs, chunksize=8)
     ctx.note("acceptance pass: %d configurations (%d deliberately invalid), implementation runs %.1f s" % (len(jobs), len(inv), time.time() - t0))
     cases, meta, fv_cases, fv_meta = [], [], [], []
+    syn_cases, syn_meta = [], []
     hist, skipped, rejected = {}, 0, 0
     for res in results:
         spec, kind = res["spec"], res["kind"]
@@ -913,6 +958,8 @@ def accept_pass(ctx, I, specs):
         skipped += res["skipped"]
         for o in res["obs"]:
             inp = dict(spec, accept_case=True, header_index=o["index"], mutation=o["mutation"], force_major=o["force_major"])
+            if kind == "synthetic":
+                inp["synthetic_table"] = True
             bucket = "accept:" + ("mutated" if o["mutation"] else "forced-version" if o["force_major"] else kind)
             ctx.count(1, key=("acc", tuple(spec["vp"]), spec["pcm"], spec.get("level", 0), o["index"], o["mutation"], o["force_major"]),
                       bucket=bucket)
@@ -928,6 +975,10 @@ def accept_pass(ctx, I, specs):
                 if not o["verdict"].startswith("crash:"):
                     ctx.obligation("corr:accept-unmodelled-class:" + cls, False, "corr-shard", "%r -> %s %s" % (inp, o["verdict"], o["what"]))
                 continue
+            if kind == "synthetic":
+                syn_cases.append(o["case"])
+                syn_meta.append((inp, o["verdict"], o["what"]))
+                continue
             cases.append(o["case"])
             meta.append((inp, o["verdict"], o["what"]))
         if kind in ("valid", "invalid") and spec.get("level", 0) == 0 and res["all_accept"] is not None and res["n_headers"]:
@@ -941,6 +992,19 @@ def accept_pass(ctx, I, specs):
         ctx.sample({"accept_case": m[0], "real_verdict": m[1]})
     imports = ["Model.SeqHeader", "Model.SeqHeaderAccept", "Corr.C15"]
     t1 = time.time()
+    CHK = ("(fun c : header * (Z * Z) * verdict => let '(h, (ma, mi), v) := c in "
+           "verdict_eqb (header_check T15 E15 (level_ok (table_of TBL)) ma mi h) v)")
+    syn_defs = table_defs(I, synthetic_table(I)) + "Definition E15 : enums := %s.\n" % c_enums(I)
+    f_syn = pool_coq.submit(ctx.coq_check_cases, "seqhdr_accept_syn", imports, CHK, syn_cases,
+                            ty="header * (Z * Z) * verdict", shard=900, defs=syn_defs)
+    f_fv = pool_coq.submit(
+        ctx.coq_check_cases, "seqhdr_format_valid", imports,
+        "(fun c : list Z * Z * bool => let '(t, pcm, acc) := c in implb (format_valid E15 (vp_of_flat t) pcm) acc)",
+        fv_cases, ty="list Z * Z * bool", shard=3000, defs=accept_defs(I))
+    f_conv = pool_coq.submit(
+        ctx.coq_eval, "accept_fv_converse", imports,
+        "List.length (filter (fun c : list Z * Z * bool => let '(t, pcm, acc) := c in negb (format_valid E15 (vp_of_flat t) pcm) && acc) fvc)",
+        defs=accept_defs(I) + "Definition fvc : list (list Z * Z * bool) := [%s]%%list.\n" % ";\n".join(fv_cases))
     bad = ctx.coq_check_cases(
         "seqhdr_accept", imports,
         "(fun c : header * (Z * Z) * verdict => let '(h, (ma, mi), v) := c in "
@@ -965,19 +1029,29 @@ def accept_pass(ctx, I, specs):
         else:
             ctx.obligation("corr:header_check agrees with decoder.sequence_header", False, "corr-shard",
                            "input %r: implementation %s (%s), model %s" % (inp, verdict, what, mv))
+    # the same comparison under the synthetic level table (order of enum / zero tests and level checks)
+    bads = f_syn.result()
+    nlev = sum(1 for m in syn_meta if m[1].endswith("ValueNotAllowedInLevel"))
+    ctx.note("acceptance pass, synthetic level table: %d cases, %d rejected by a level check, %d accepted"
+             % (len(syn_cases), nlev, sum(1 for m in syn_meta if m[1] == "accept")))
+    for n, i in enumerate(bads or []):
+        if n >= 20:
+            break
+        inp, verdict, what = syn_meta[i]
+        ctx.obligation("corr:header_check agrees with decoder.sequence_header (synthetic level table)", False, "corr-shard",
+                       "input %r: implementation %s (%s)" % (inp, verdict, what))
     # format_valid (model, on the configuration only) -> every header accepted by the real validator
-    badfv = ctx.coq_check_cases(
-        "seqhdr_format_valid", imports,
-        "(fun c : list Z * Z * bool => let '(t, pcm, acc) := c in implb (format_valid E15 (vp_of_flat t) pcm) acc)",
-        fv_cases, ty="list Z * Z * bool", shard=3000, defs=accept_defs(I))
+    badfv = f_fv.result()
     for i in (badfv or []):
         spec, _ = fv_meta[i]
         ctx.violation("valid-format-header-rejected", dict(spec, accept_case=True, header_index=None, mutation=None, force_major=None),
                       "format_valid holds of the target but the real validator rejects one of its generated headers",
                       observed="rejected", expected="accept")
-    conv = ctx.coq_eval("accept_fv_converse", imports,
-                        "List.length (filter (fun c : list Z * Z * bool => let '(t, pcm, acc) := c in negb (format_valid E15 (vp_of_flat t) pcm) && acc) fvc)",
-                        defs=accept_defs(I) + "Definition fvc : list (list Z * Z * bool) := [%s]%%list.\n" % ";\n".join(fv_cases)) if fv_cases else "0"
+    conv = f_conv.result()
+    cover = f_cover.result()
+    pool_coq.shutdown()
+    ctx.obligation("corr:enums_cover holds of the live tables / enumerations (hypothesis of C15_headers_accepted_partial)",
+                   cover is not None and cover.strip() == "true", "corr-shard", "enums_cover T15 E15 = %s" % cover)
     ctx.note("format_valid vs. the real validator on %d level-0 configurations: %d with every sampled header accepted; "
              "configurations NOT format_valid yet with every sampled header accepted: %s"
              % (len(fv_cases), sum(1 for _, a in fv_meta if a), conv))
@@ -996,6 +1070,8 @@ def accept_pass(ctx, I, specs):
 def replay_accept(ctx, data):
     I = impl()
     spec = data["input"]
+    if spec.get("synthetic_table"):
+        I.lc.LEVEL_CONSTRAINTS[:] = synthetic_table(I)  # the replay process ends afterwards
     print("replaying (acceptance)", data.get("key"), spec)
     cf = make_cf(I, spec)
     headers = list(I.esh.iter_sequence_headers(cf))
